@@ -2,7 +2,7 @@
 hdl21 ProtoBuf Import 
 """
 from types import SimpleNamespace
-from typing import Union, Any, Dict, List, Optional
+from typing import Union, Any, Dict, List, Optional, get_args
 
 # Local imports
 # Proto-definitions
@@ -164,7 +164,7 @@ class ProtoImporter:
                 # Import a VLSIR primitive to an ideal element, and convert its parameters
                 target = import_vlsir_primitive(ref.external)
                 remapped_params = import_primitive_params(target, params)
-                params = target.Params(**remapped_params)
+                params = target.Params(**absent_as_none(target, remapped_params))
 
             elif ref.external.domain in (
                 "hdl21.primitives",
@@ -172,7 +172,7 @@ class ProtoImporter:
             ):
                 # Retrieve the Primitive from `hdl21.primitives`, and convert its parameters
                 target = import_hdl21_primitive(ref.external)
-                params = target.Params(**params)
+                params = target.Params(**absent_as_none(target, params))
 
             else:  # Externally-defined `ExternalModule`
                 # These must be declared in our `Package` being imported. Look up its header-info from `ext_modules`.
@@ -385,6 +385,18 @@ def import_prefixed(vpref: vlsir.Prefixed) -> Prefixed:
         raise ValueError(f"Invalid Parameter Type: `{ptype}`")
 
     return Prefixed(number=number, prefix=prefix)
+
+
+def absent_as_none(target: Primitive, params: Dict[str, Any]) -> Dict[str, Any]:
+    """Restore the `None`-valued parameters of a `Primitive`.
+    `None`-valued parameters are not exported, and hence are absent from `params`.
+    Leaving them out would give them their default values, which for several (e.g. `Vdc.dc`) are not `None`."""
+
+    restored = dict(params)
+    for name, param in target.Params.__params__.items():
+        if name not in restored and type(None) in get_args(param.dtype):
+            restored[name] = None
+    return restored
 
 
 def import_primitive_params(
